@@ -40,7 +40,9 @@ def obligation(oid, profiles=("dev",), tier="quick", desc=""):
 class Candidate:
     """A solver-found counterexample awaiting native confirmation."""
 
-    def __init__(self, ob_id, profile, label, model, facts, scenarios, judge, detail):
+    def __init__(self, ob_id, profile, label, model, facts, scenarios, judge, detail, assumed=None):
+        self.assumed = assumed      # invariant text: a locally reachable site that is on the assumed-unreachable list -
+        #                             it is still replayed; only if it does NOT reproduce it counts as an assumption
         self.ob_id = ob_id
         self.profile = profile
         self.label = label
@@ -183,7 +185,7 @@ class ObCtx:
         self.violation(label, m, f, sc, judge, detail or ("claim fails: " + label))
         return False
 
-    def fail_path(self, path, label, facts=None, scenarios=None, judge=None, detail=None, extra=None):
+    def fail_path(self, path, label, facts=None, scenarios=None, judge=None, detail=None, extra=None, assumed=None):
         """A structural (trace-shape) violation on a path the solver found feasible."""
         res, m = self.solve(list(path.pc) + (extra or []))
         if res == "unsat":
@@ -193,12 +195,13 @@ class ObCtx:
             return
         f = facts(m) if callable(facts) else (facts or {})
         sc = scenarios(m) if callable(scenarios) else (scenarios or [])
-        self.violation(label, m, f, sc, judge, detail or label)
+        self.violation(label, m, f, sc, judge, detail or label, assumed=assumed)
 
-    def violation(self, label, model, facts, scenarios, judge, detail):
-        self.rec["status"] = "violated"
+    def violation(self, label, model, facts, scenarios, judge, detail, assumed=None):
+        if assumed is None:
+            self.rec["status"] = "violated"
         c = Candidate(self.ob.id, self.profile, label, model_dict(model) if model is not None else {}, facts,
-                      scenarios, judge, detail)
+                      scenarios, judge, detail, assumed=assumed)
         self.run.candidates.append(c)
         self.rec["notes"].append("COUNTEREXAMPLE: %s %s" % (label, json.dumps(facts, default=str)))
 
